@@ -362,7 +362,11 @@ VP_RANDOM (lattice_wide, 3000000, 60000000, "float or double; box corners in {-8
         else
             d[i] = s.chance (48) ? 0 : (int) s.range (-7, 7);
     }
-    if (d[0] == 0 && d[1] == 0 && d[2] == 0) d[(int) s.below (3)] = s.coin () ? 1 : -1;
+    if (d[0] == 0 && d[1] == 0 && d[2] == 0)
+    {
+        int k = (int) s.below (3);
+        d[k]  = s.coin () ? 1 : -1;
+    }
     bool   dbl = s.coin ();
     Counts n;
     VP_NOTE (c, (dbl ? "double" : "float") << " box [(" << mn[0] << " " << mn[1] << " " << mn[2] << ") (" << mx[0] << " " << mx[1] << " " << mx[2] << ")] pos (" << p[0] << " " << p[1] << " " << p[2] << ") dir (" << d[0] << " " << d[1] << " " << d[2] << ")");
@@ -742,7 +746,13 @@ template <class T> static T extreme_comp (vp::Src& s)
         case 4: v = f ? (T) 1e-20 : (T) 1e-160; break;
         case 5: v = f ? (T) 1e20 : (T) 1e160; break;
         case 6: v = L::max (); break;
-        case 7: v = (T) std::ldexp (1.0 + s.unit (), (int) s.range (L::min_exponent - L::digits + 1, L::max_exponent - 1)); break; // any magnitude
+        case 7: // any magnitude
+        {
+            double mant = 1.0 + s.unit ();
+            int    ex   = (int) s.range (L::min_exponent - L::digits + 1, L::max_exponent - 1);
+            v           = (T) std::ldexp (mant, ex);
+            break;
+        }
         case 8: v = (T) s.uniform (0.1, 1); break;
         default: v = 0; break;
     }
@@ -763,7 +773,12 @@ template <class T> static void extreme_case (vp::Ctx& c, const char* tn)
     }
     for (int i = 0; i < 3; ++i)
         r.dir[i] = extreme_comp<T> (s);
-    if (r.dir[0] == 0 && r.dir[1] == 0 && r.dir[2] == 0) r.dir[(int) s.below (3)] = extreme_comp<T> (s) == 0 ? (T) 1 : std::numeric_limits<T>::denorm_min ();
+    if (r.dir[0] == 0 && r.dir[1] == 0 && r.dir[2] == 0)
+    {
+        int k    = (int) s.below (3);
+        T   v    = extreme_comp<T> (s);
+        r.dir[k] = v == 0 ? (T) 1 : std::numeric_limits<T>::denorm_min ();
+    }
     for (int i = 0; i < 3; ++i)
     {
         T        ext = b.max[i] - b.min[i];
